@@ -195,19 +195,21 @@ template<class Src, class Dest>
         bool full = cv::space_is_full<RepS>(fullbits);
         if (!vf::begin(name, full)) return;
         constexpr int radix = SS::scaled ? sr : dr;
-        static_assert(!(SS::scaled && SD::scaled) || sr == dr, "same radix expected");
+        constexpr bool mixed_radix = SS::scaled && SD::scaled && sr != dr;  // decimal <-> binary fixed point
+        // mixed radix: the library scales step by step in the type from_value<Result, Input> gives, i.e. the source's width
+        std::string const mixlab = !mixed_radix ? "" : (cv::max_of<RepS>() < cv::max_of<RepD>() ? "/mixed_radix/source_rep_narrower_than_destination" : "/mixed_radix");
         using Prom = std::conditional_t<cv::is_builtin_int<RepS>, decltype(+std::declval<std::conditional_t<cv::is_builtin_int<RepS>, RepS, int>>()), RepS>;
         for (auto const& a : cv::space<RepS>(fullbits, step)) {
             if (!vf::my_row()) continue;
             auto id = [&] { return a.str(); };
             if (vf::replaying() && !vf::case_selected(id())) continue;
-            Rat v = Rat::scaled(a, radix, se);
-            Rat unit = Rat::scaled(Big(1), radix, de);
+            Rat v = Rat::scaled(a, SS::scaled ? sr : dr, se);
+            Rat unit = Rat::scaled(Big(1), SD::scaled ? dr : sr, de);
             Big want = (v / unit).trunc();
             bool pre = cv::fits<RepD>(want);
             // scaling up to a finer destination is performed in the promoted source rep: semantic label of a known failure mode
             bool scaling_overflows = false;
-            if constexpr (cv::is_builtin_int<RepS>) scaling_overflows = se > de && !cv::fits<Prom>(a * Big::pow(Big(radix), se - de));
+            if constexpr (cv::is_builtin_int<RepS> && !mixed_radix) scaling_overflows = se > de && !cv::fits<Prom>(a * Big::pow(Big(radix), se - de));
             if (!pre) {
                 vf::skip_pre();
                 continue;
@@ -224,10 +226,10 @@ template<class Src, class Dest>
             if (vf::want_sample()) vf::sample(name + " " + id() + " -> rep " + got.str() + " expected " + want.str());
             if (!o.ok()) {
                 vf::outcome(o.str());
-                vf::violation("fixed_to_fixed/" + o.str() + (scaling_overflows ? "/scaling_overflows_source" : ""), id(), id() + ": " + o.str() + ", expected rep " + want.str());
+                vf::violation("fixed_to_fixed/" + o.str() + (scaling_overflows ? "/scaling_overflows_source" : "") + mixlab, id(), id() + ": " + o.str() + ", expected rep " + want.str());
             } else if (got != want) {
                 vf::outcome("wrong_value");
-                vf::violation(std::string("fixed_to_fixed/value/") + (inexact ? (a.neg ? "truncating_negative" : "truncating") : "exact") + (scaling_overflows ? "/scaling_overflows_source" : ""), id(), id() + ": rep " + got.str() + ", expected " + want.str());
+                vf::violation(std::string("fixed_to_fixed/value/") + (inexact ? (a.neg ? "truncating_negative" : "truncating") : "exact") + (scaling_overflows ? "/scaling_overflows_source" : "") + mixlab, id(), id() + ": rep " + got.str() + ", expected " + want.str());
             } else
                 vf::outcome(inexact ? (a.neg ? "ok_truncated_negative" : "ok_truncated") : "ok_exact");
             // identities
